@@ -90,6 +90,17 @@ fn get_text<'a>(val: &Option<Value<'a>>) -> Option<Cow<'a, str>> {
     }
 }
 
+/// Longest string (in bytes) that REPEAT, SPACE, LPAD and RPAD build. A length argument beyond it
+/// yields NULL, as MySQL does for results that exceed max_allowed_packet, instead of an allocation
+/// that cannot succeed.
+const MAX_BUILT_STRING_LEN: usize = 64 * 1024 * 1024;
+
+/// The requested length of a built string: None when it is negative or too large.
+fn built_len(n: i64, unit: usize) -> Option<usize> {
+    let n = usize::try_from(n).ok()?;
+    (n.checked_mul(unit.max(1))? <= MAX_BUILT_STRING_LEN).then_some(n)
+}
+
 fn get_int(val: &Option<Value>) -> Option<i64> {
     match val.as_ref()? {
         Value::Int(n) => Some(*n),
@@ -301,11 +312,9 @@ fn eval_concat_ws<'a>(args: &[Option<Value<'a>>]) -> Option<Value<'a>> {
 
 fn eval_lpad<'a>(args: &[Option<Value<'a>>]) -> Option<Value<'a>> {
     let text = get_text(args.first()?)?;
-    let target_len = get_int(args.get(1)?)?;
-    if target_len < 0 {
+    let Some(target_len) = built_len(get_int(args.get(1)?)?, 4) else {
         return Some(Value::Null);
-    }
-    let target_len = target_len as usize;
+    };
     let pad = get_text(args.get(2)?)?;
 
     let char_count = text.chars().count();
@@ -332,11 +341,9 @@ fn eval_lpad<'a>(args: &[Option<Value<'a>>]) -> Option<Value<'a>> {
 
 fn eval_rpad<'a>(args: &[Option<Value<'a>>]) -> Option<Value<'a>> {
     let text = get_text(args.first()?)?;
-    let target_len = get_int(args.get(1)?)?;
-    if target_len < 0 {
+    let Some(target_len) = built_len(get_int(args.get(1)?)?, 4) else {
         return Some(Value::Null);
-    }
-    let target_len = target_len as usize;
+    };
     let pad = get_text(args.get(2)?)?;
 
     let char_count = text.chars().count();
@@ -399,7 +406,10 @@ fn eval_repeat<'a>(args: &[Option<Value<'a>>]) -> Option<Value<'a>> {
         return Some(Value::Text(Cow::Borrowed("")));
     }
 
-    Some(Value::Text(Cow::Owned(text.repeat(count as usize))))
+    let Some(count) = built_len(count, text.len()) else {
+        return Some(Value::Null);
+    };
+    Some(Value::Text(Cow::Owned(text.repeat(count))))
 }
 
 fn eval_space<'a>(args: &[Option<Value<'a>>]) -> Option<Value<'a>> {
@@ -409,7 +419,10 @@ fn eval_space<'a>(args: &[Option<Value<'a>>]) -> Option<Value<'a>> {
         return Some(Value::Text(Cow::Borrowed("")));
     }
 
-    Some(Value::Text(Cow::Owned(" ".repeat(count as usize))))
+    let Some(count) = built_len(count, 1) else {
+        return Some(Value::Null);
+    };
+    Some(Value::Text(Cow::Owned(" ".repeat(count))))
 }
 
 fn eval_insert<'a>(args: &[Option<Value<'a>>]) -> Option<Value<'a>> {
